@@ -254,9 +254,26 @@ seq_run(Params *p)
 		future.push_back(b);
 	}
 	for (int op = 0; op < nops; op++) {
-		int    kind = (int) W(0, 9);
+		int    kind = (int) W(0, 10);
 		size_t ci   = (size_t) W(0, (long) w.ctxs.size() - 1);
 		MCtx  &c    = w.ctxs[ci];
+		if (kind == 10) { // the receive buffer is resized with whatever it holds
+			size_t ncap = (size_t) W(1, 8);
+			int    rv   = c.is_sock ? nng_socket_set_int(w.sub, NNG_OPT_RECVBUF, (int) ncap)
+			                        : nng_ctx_set_int(c.ctx, NNG_OPT_RECVBUF, (int) ncap);
+			if (rv != 0)
+				VIOL("resize_failed", "setting NNG_OPT_RECVBUF to %zu returned %d", ncap, rv);
+			sim_event("resize ctx%zu recvbuf %zu -> %zu (holding %zu)", ci, c.cap, ncap, c.q.size());
+			// what no longer fits is discarded, newest first; nothing else changes
+			while (c.q.size() > ncap) {
+				c.q.pop_back();
+				sim_probe("c05_dropped_by_shrink");
+			}
+			if (ncap > c.cap && c.q.size() == c.cap)
+				sim_probe("c05_full_buffer_grown");
+			c.cap = ncap;
+			continue;
+		}
 		if (kind <= 3) { // publish
 			MMsg m;
 			m.pub    = (int) W(0, np - 1);
